@@ -137,6 +137,20 @@ def check(col: Collector, tier: str):
         if isinstance(s, ast.If) and flag and src(s.test) == f"not {flag}":
             raise_ok = any(isinstance(r, ast.Raise) and r.exc is not None and "ValueError" in src(r.exc) for r in ast.walk(s))
     first_is_reset = flag is not None and isinstance(wl.body[0], ast.Assign) and src(wl.body[0].targets[0]) == flag
+    # nothing between the detection of "no progress" and its ValueError may fail in another way: the branch is straight-line code
+    # (no loop, no next() without default, no indexing of the dependency tables by a computed key)
+    risky = []
+    for s in wl.body:
+        if isinstance(s, ast.If) and flag and src(s.test) in (f"not {flag}", flag):
+            br = s.body if src(s.test) == f"not {flag}" else s.orelse
+            for st_ in br:
+                for x in ast.walk(st_):
+                    if isinstance(x, (ast.While, ast.For)):
+                        risky.append(f"loop at line {x.lineno}")
+                    if isinstance(x, ast.Call) and call_name(x) == "next" and len(x.args) == 1:
+                        risky.append(src(x)[:50])
+    col.add("C15.R2", "generate_script_block", "cycle-report-cannot-fail-otherwise", not risky,
+            f"the circular-dependency branch must go straight to its ValueError; constructs that can raise StopIteration/KeyError or not terminate: {risky}", g.loc)
     col.add("C15.R2", "generate_script_block", "no-progress-raises-ValueError", bool(flag) and set_true and raise_ok and first_is_reset,
             "each sweep must reset a progress flag first, set it in the emitting branch, and raise ValueError when a sweep emits nothing (cycle)", g.loc)
     # dependency table construction: every copy's depends_on is merged, on every non-raising path
